@@ -198,6 +198,9 @@ func (r *rpRun) apply(i int, op rpOp) {
 		}
 		before := m.String()
 		var tp []string
+		if op.Res == "notopic" && (i+len(b.Ops))%2 == 1 {
+			tp = []string{} // "no topics" is an empty list, nil or not
+		}
 		if op.Res != "notopic" {
 			tp = op.Tp
 			if op.Res == "idmismatch" {
